@@ -219,6 +219,7 @@ type actKey struct{ id, pos int }
 type activity struct {
 	active map[actKey]int
 	maxSeen int
+	end    int // global position of the end of the parsed file, computed by the harness
 	rd     *text.Reader
 	limit  int // extra slack over Remaining(pos)
 	failed string
@@ -238,9 +239,10 @@ func (p *actProbe) Parse(ctx *parsley.Context, lrc data.IntMap, pos parsley.Pos)
 	if n > p.st.maxSeen {
 		p.st.maxSeen = n
 	}
-	if n > p.st.rd.Remaining(pos)+p.slack {
+	remaining := p.st.end - int(pos) // the harness's own count, not the reader's
+	if n > remaining+p.slack {
 		// fail immediately: this is the invariant that bounds recursion depth
-		rt.Fail("reentry-bound", "a memoized parser is active "+itoa(n)+" times at one position with "+itoa(p.st.rd.Remaining(pos))+" bytes remaining")
+		rt.Fail("reentry-bound", "a memoized parser is active "+itoa(n)+" times at one position with "+itoa(remaining)+" bytes remaining")
 	}
 	node, cp, err := p.inner.Parse(ctx, lrc, pos)
 	p.st.active[k]--
@@ -255,7 +257,7 @@ func C02_BoundedReentry() {
 	in := inputFor(g, rt.Param("N", 3))
 	rt.Note(g.Name)
 	e := newEnv(in)
-	st := &activity{active: map[actKey]int{}, rd: e.rd}
+	st := &activity{active: map[actKey]int{}, rd: e.rd, end: e.base + len(in)}
 	w := &Wrap{
 		Rule: func(i int, p parsley.Parser) parsley.Parser {
 			return &actProbe{inner: p, id: i, st: st, slack: 2}
@@ -274,6 +276,7 @@ func C02_BoundedReentry() {
 	e2 := newEnv(in)
 	st.active = map[actKey]int{}
 	st.rd = e2.rd
+	st.end = e2.base + len(in)
 	parsley.Parse(e2.ctx, combinator.Sentence(bt.Root))
 	rt.ObsInt("calls", e2.ctx.CallCount())
 }
